@@ -12,10 +12,14 @@ What is NOT proved (`C14_full` below): that the byte formats themselves (Python 
 every run by the harness (trusted base §3.4), not modelled.
 -/
 import Rpft.Lemmas.Sheets
+import Rpft.Gen.Tables
 set_option linter.unusedSimpArgs false
 set_option linter.unusedVariables false
 namespace Rpft.Props.C14
 open Rpft Rpft.Sheets
+
+/-- T1: the format → reader table of the model is the one in the source (regenerated each run). -/
+theorem tables_agree : Gen.sheetFormatReaders = formatReaders := by decide
 
 /-! ### hypotheses -/
 
